@@ -5,12 +5,16 @@ package main
 import (
 	"encoding/json"
 	"fmt"
+	"go/token"
 	"os"
 	"path/filepath"
 	"sort"
 	"strconv"
 	"strings"
 	"time"
+
+	"golang.org/x/tools/go/ssa"
+	"golang.org/x/tools/go/ssa/ssautil"
 )
 
 type PropertyDef struct {
@@ -75,6 +79,7 @@ type checkRun struct {
 	extraDis   int
 	notes      []string
 	bounded    *BoundedResult
+	scanViolations []string
 }
 
 type violation struct {
@@ -231,6 +236,10 @@ func (run *checkRun) verdict(eng *Engine, outDir string) int {
 			}
 		}
 	}
+	for _, p := range run.scanViolations {
+		fmt.Printf("VIOLATION property=%s replay=%s no-failing-input-found\n", prop.ID, p)
+		code = 1
+	}
 	if run.bounded != nil {
 		for _, f := range run.bounded.Failures {
 			if kf := matchKnown(known, prop.ID, "bounded:"+f); kf != nil {
@@ -248,6 +257,7 @@ func (run *checkRun) verdict(eng *Engine, outDir string) int {
 			code = 1
 		}
 	}
+	total += run.extraObl
 	if total == 0 && code == 0 {
 		run.toolErrors = append(run.toolErrors, "no obligations generated")
 	}
@@ -537,4 +547,57 @@ func trustedBase() []string {
 		"z3 5.1.0 / z3 4.8.12 / cvc5 1.0 soundness",
 		"assumed contracts of external functions in /verif/specs (named per property under assumptions)",
 	}
+}
+
+// checkGlobalImmutable is a mechanical scan: the package-level variable is
+// stored to only by the package initialiser.  It is reported as one more
+// obligation of the property.
+func checkGlobalImmutable(eng *Engine, run *checkRun, pkgPath, name string) {
+	run.extraObl++
+	sp := eng.ssaPkgs[pkgPath]
+	if sp == nil {
+		run.toolErrors = append(run.toolErrors, "package "+pkgPath+" not loaded")
+		return
+	}
+	g, ok := sp.Members[name].(*ssa.Global)
+	if !ok {
+		run.toolErrors = append(run.toolErrors, "package variable "+name+" not found in "+pkgPath)
+		return
+	}
+	var bad []string
+	for fn := range ssautil.AllFunctions(eng.prog) {
+		if fn.Pkg != sp && !(fn.Parent() != nil && fn.Parent().Pkg == sp) {
+			continue
+		}
+		if fn.Name() == "init" && fn.Parent() == nil {
+			continue
+		}
+		for _, b := range fn.Blocks {
+			for _, in := range b.Instrs {
+				// the address escaping anywhere but a load is also a write risk
+				for _, op := range in.Operands(nil) {
+					if *op != ssa.Value(g) {
+						continue
+					}
+					if u, ok := in.(*ssa.UnOp); ok && u.Op == token.MUL {
+						continue
+					}
+					bad = append(bad, fmt.Sprintf("%s: %s", eng.prog.Fset.Position(in.Pos()), in))
+				}
+			}
+		}
+	}
+	if len(bad) == 0 {
+		run.extraDis++
+		run.notes = append(run.notes, "store scan: "+pkgPath+"."+name+" is only read outside the package initialiser")
+		return
+	}
+	dir := filepath.Join(outDirBase(), "out", "replay", run.prop.ID)
+	os.MkdirAll(dir, 0o755)
+	path := filepath.Join(dir, "global_"+name+"_assigned.json")
+	b, _ := json.MarshalIndent(map[string]any{"property": run.prop.ID, "obligation": "store-scan/" + name, "verdict": "no-model",
+		"note": "the package variable is written or its address escapes outside the initialiser", "sites": bad}, "", " ")
+	os.WriteFile(path, b, 0o644)
+	run.violations = append(run.violations, violation{obligation: "store-scan/" + name, replay: path})
+	run.scanViolations = append(run.scanViolations, path)
 }
